@@ -272,6 +272,36 @@ def r4(chk, prog):
     chk.check(bool(close and roll and opn) and gcfg.node_dominates(close[0], roll[0]) and
               gcfg.node_dominates(roll[0], opn[0]) and not gcfg.must_pass_through(lambda n: n in opn), 'R4', g.name,
               'reOpenFile() = close, roll, open', g.loc())
+    # wherever the generations are rolled, the policy gets to see the new (empty) file before anything is written:
+    # openCheck() on the new file is what restarts the progress counters (R2) - unless the policy's rollFiles()
+    # resets every counter itself
+    from ..rules import Wrapper
+    needs_check = []
+    for cls in policy_classes(prog):
+        m = {f_.short: f_ for f_ in prog.functions if f_.cls == cls}
+        if not {'writeCheck', 'written', 'rollFiles'} <= set(m):
+            continue
+        counters = set(field_writes(m['written'])) & field_reads(m['writeCheck'])
+        if counters - set(field_writes(m['rollFiles'], kinds=('=',))):
+            needs_check.append(cls.split('::')[-1])
+    w = Wrapper(prog, lambda c: callee_is(c, 'PolicyBase::openCheck'), depth=3)
+    n_roll = 0
+    for h in prog.functions:
+        if h.cls != 'celma::log::files::PolicyBase' or h.body is None:
+            continue
+        hcfg = h.cfg
+        for c in h.calls():
+            if not callee_is(c, 'PolicyBase::rollFiles'):
+                continue
+            n_roll += 1
+            pos = hcfg.position(c)
+            bad = hcfg.can_reach_exit((pos[0], pos[1] + 1), lambda p_, e: isinstance(e, int) and
+                                      h.node(e) is not None and w.node_is(h.node(e)))
+            chk.check(not bad or not needs_check, 'R4', h.name, 'after the generations were rolled the policy checks '
+                      'the new file (openCheck() restarts the progress counters) before the function returns', h.loc(c),
+                      'a return is reachable after rollFiles() without openCheck(): the counters of %s still describe '
+                      'the previous generation' % ', '.join(needs_check))
+    chk.require(n_roll >= 1, 'calls of rollFiles() in PolicyBase: %d' % n_roll)
     # roll loops
     n = 0
     for cls in policy_classes(prog):
